@@ -35,13 +35,18 @@ REQUIRED = {'families': 200, 'resolutions': 5000, 'reach._is_specialization_of':
 def gen_family(rng, shape=None):
     """-> (layers: list of list of OverloadSpec, call dict, shape label)"""
     shape = shape or rng.choice(['specific+two-incomparable', 'chain', 'duplicates', 'mixed-no_kwargs', 'mixed-laziness',
-                                 'random', 'random', 'two-layers'])
+                                 'random', 'random', 'two-layers', 'keyword-specificity'])
     layers = []
     tagn = itertools.count()
 
     def ov(types, nullable=True, lazy=(), no_kwargs=False, kind='function'):
         params = [fam.ParamSpec('p%d' % i, t, nullable=nullable, lazy=(i in lazy)) for i, t in enumerate(types)]
         return fam.OverloadSpec('t%d' % next(tagn), params, kind=kind, no_kwargs=no_kwargs)
+    if shape == 'keyword-specificity':
+        # every argument by keyword, overloads declaring their parameters in different orders
+        from vmon.props import c05
+        layers, _, cs = c05.gen_kw_family(rng)
+        return layers, {'args': cs.args, 'kwargs': cs.kwargs, 'method': False}, shape
     if shape == 'specific+two-incomparable':
         # one candidate more specific than two mutually incomparable others
         layer = [ov(['C', 'C']), ov(['B', 'object']), ov(['object', 'B'])]
@@ -101,6 +106,9 @@ def gen_family(rng, shape=None):
 def render_call(call):
     parts = []
     vars_ = {}
+    for name, a in (call.get('kwargs') or {}).items():
+        vars_['k' + name] = fam.VALUES[a][1]()
+    kwparts = ['%s => $k%s' % (name, name) for name in (call.get('kwargs') or {})]
     for i, a in enumerate(call['args']):
         if a == 'rule:kw':
             vars_['r%d' % i] = fam.VALUES['c'][1]()
@@ -112,8 +120,8 @@ def render_call(call):
             vars_['a%d' % i] = fam.VALUES[a][1]()
             parts.append('$a%d' % i)
     if call.get('method') and parts and not parts[0].count('=>'):
-        return '%s.f(%s)' % (parts[0], ', '.join(parts[1:])), vars_
-    return 'f(%s)' % ', '.join(parts), vars_
+        return '%s.f(%s)' % (parts[0], ', '.join(parts[1:] + kwparts)), vars_
+    return 'f(%s)' % ', '.join(parts + kwparts), vars_
 
 
 class World:
@@ -209,7 +217,9 @@ def check_family(mon, layers, call, shape, rec, label):
 def spec_from_desc(d):
     params = [fam.ParamSpec(p['name'], p['type'], p['nullable'], p.get('default'), 'default' in p, p.get('lazy', False),
                             p.get('hidden'), p['kind']) for p in d['params']]
-    return fam.OverloadSpec(d['tag'], params, d['kind'], d['no_kwargs'])
+    spec = fam.OverloadSpec(d['tag'], params, d['kind'], d['no_kwargs'])
+    spec.decor_seed = d.get('decor_seed')
+    return spec
 
 
 def plan(tier, seed):
